@@ -71,11 +71,19 @@ CHECKS = {
          "Sequentially consistent interleavings at hook granularity; dependencies are covered only by the -race pass."),
 }
 
+CROSS = {"C01", "C02", "C03", "C05", "C06", "C09", "C10", "C11", "C12", "C13", "C15", "C16", "C19"}
+DECOR = {"C02", "C03", "C04", "C06", "C07", "C08", "C09", "C15", "C16", "C17", "C18", "C19"}
+
+
 def main():
     impl = sorted(sys.argv[1:]) if len(sys.argv) > 1 else sorted(CHECKS)
     checks = []
     for pid in impl:
         eng, tech, text, note = CHECKS[pid]
+        if pid in CROSS:
+            text += " The same oracle is also run on the cross corpus: an evenly spaced, fixed subset of the documents that the other checks enumerate, a third of them once more pretty-printed and a third once more with comments between their blocks."
+        if pid in DECOR:
+            text += " Every 10th (thorough: 4th) case of the check's own space is executed twice more with the document pretty-printed and with comments between its blocks."
         checks.append({
             "property_id": pid,
             "quick_cmd": "./check %s quick" % pid,
@@ -108,7 +116,7 @@ def main():
         ],
         "checks": checks,
         "not_applicable": na,
-        "cross_corpus": "C01, C02, C05, C06, C09, C10, C11 and C13 - whose oracles are defined for any document - additionally run an evenly spaced subset of the documents that C03, C04, C06, C07, C08 and C14-C20 enumerate (harness/props/cross.go)",
+        "cross_corpus": "C01, C02, C03, C05, C06, C09, C10, C11, C12 (as two-thread scenarios), C13, C15, C16 and C19 - whose oracles are defined for any document - additionally run an evenly spaced subset of the documents that C02-C04, C06-C10 and C13-C20 enumerate (harness/props/cross.go, DESIGN.md 10.2a)",
         "notes": "All checks: `./check <ID> [quick|thorough]`; replay: `./check replay <file>`; known findings: /verif/known-findings.txt; design: /verif/DESIGN.md",
     }
     with open(os.path.join(HERE, "MANIFEST.json"), "w") as f:
